@@ -877,6 +877,11 @@ pub fn outcome_signature(o: &ValOut) -> (String, String) {
 }
 
 pub fn eval_item(accounts: &[Account], it: &CorpusItem) -> (String, String) {
+    eval_item_pooled(accounts, it, None)
+}
+
+/// `pool`: the key store's shared connection pool (back-pressure through poll_ready), if any.
+pub fn eval_item_pooled(accounts: &[Account], it: &CorpusItem, pool: Option<Arc<Mutex<usize>>>) -> (String, String) {
     let req = match it.wire.to_request() {
         Ok(r) => r,
         Err(e) => return (format!("not admitted by http: {}", e), String::new()),
@@ -886,6 +891,7 @@ pub fn eval_item(accounts: &[Account], it: &CorpusItem) -> (String, String) {
         let mut sh = shared.lock().unwrap();
         sh.scripts.push(it.script.clone());
         sh.record_events = false;
+        sh.pool = pool.clone();
     }
     let mut t = Tape::replay(vec![]);
     let rep = libi::run_tasks(
@@ -899,7 +905,12 @@ pub fn eval_item(accounts: &[Account], it: &CorpusItem) -> (String, String) {
         libi::ExecPolicy {
             spurious_one_in: 0,
             cancel_one_in: 0,
-            step_cap: 200,
+            // (waiting for a pooled connection costs executor steps while other threads run)
+            step_cap: if pool.is_some() {
+                2_000_000
+            } else {
+                200
+            },
         },
         &mut t,
     );
@@ -1037,17 +1048,30 @@ fn run_c18(t: &mut Tape, tier: Tier) -> RunOut {
     });
     let sched_seed = t.u64();
     let per_thread: Vec<Vec<usize>> = (0..nthreads).map(|_| (0..1 + t.below(4)).map(|_| t.below(items.len())).collect()).collect();
+    // one run in three: the threads' key-store handles share a connection pool of 1-2 connections
+    // (back-pressure through poll_ready); what each validation returns must not depend on who
+    // else is holding a connection at that moment
+    let pool: Option<Arc<Mutex<usize>>> = if t.chance(3) {
+        out.probe("thread_engine_shared_connection_pool");
+        Some(Arc::new(Mutex::new(1 + t.below(2))))
+    } else {
+        None
+    };
+    let pooled_golden: Option<Vec<(String, String)>> = pool.as_ref().map(|p| {
+        let cap = *p.lock().unwrap();
+        items.iter().map(|it| eval_item_pooled(&accounts, it, Some(Arc::new(Mutex::new(cap))))).collect()
+    });
     let sched = Sched::new(nthreads, sched_seed, None);
     let mut handles = Vec::new();
     for (me, plan) in per_thread.iter().enumerate() {
-        let (a, its, plan, s, hs) = (accounts.clone(), items.clone(), plan.clone(), sched.clone(), t.u64());
+        let (a, its, plan, s, hs, pool) = (accounts.clone(), items.clone(), plan.clone(), sched.clone(), t.u64(), pool.clone());
         handles.push(
             std::thread::Builder::new()
                 .stack_size(8 << 20)
                 .spawn(move || {
                     hashseed::set_thread_hash_seed(hs);
                     s.enter(me);
-                    let r = std::panic::catch_unwind(std::panic::AssertUnwindSafe(|| plan.iter().map(|i| (*i, eval_item(&a, &its[*i]))).collect::<Vec<_>>()));
+                    let r = std::panic::catch_unwind(std::panic::AssertUnwindSafe(|| plan.iter().map(|i| (*i, eval_item_pooled(&a, &its[*i], pool.clone()))).collect::<Vec<_>>()));
                     s.leave(me);
                     r
                 })
@@ -1059,7 +1083,14 @@ fn run_c18(t: &mut Tape, tier: Tier) -> RunOut {
             Ok(Ok(rs)) => {
                 out.deliveries += rs.len() as u64;
                 for (i, r) in rs {
-                    compare(&mut out, &format!("{} baton-scheduled threads (schedule seed {})", nthreads, sched_seed), i, &r);
+                    match &pooled_golden {
+                        Some(pg) => {
+                            if !same_outcome(&r.0, &pg[i].0) {
+                                out.violate("C18", "same-outcome-on-repetition", format!("{} baton-scheduled threads (schedule seed {}) sharing a key-store connection pool: corpus[{}] gave {:?}; alone with the same pool it gives {:?}; request: {}", nthreads, sched_seed, i, r.0, pg[i].0, items[i].wire.describe()));
+                            }
+                        }
+                        None => compare(&mut out, &format!("{} baton-scheduled threads (schedule seed {})", nthreads, sched_seed), i, &r),
+                    }
                 }
             }
             _ => out.violate("C18", "same-outcome-on-repetition", "a validating thread panicked under the thread engine".into()),
